@@ -211,59 +211,148 @@ func ruleMustGuard(c *Ctx, r *RuleResult, fnName, initName, lastField, wordParam
 	gates := map[cfgEdge]string{}
 	// gateOf: does the condition having the given truth value establish "no previous word" or
 	// "previous word strictly smaller than the new one"?
-	gateOf := func(cond ssa.Value, truth bool) string {
-		for {
-			if u, ok := cond.(*ssa.UnOp); ok && u.Op == token.NOT {
-				cond, truth = u.X, !truth
-				continue
+	var gateOfIn func(recv, word ssa.Value, depth int) func(cond ssa.Value, truth bool) string
+	gateOfIn = func(recv, word ssa.Value, depth int) func(cond ssa.Value, truth bool) string {
+		var gateOf func(cond ssa.Value, truth bool) string
+		gateOf = func(cond ssa.Value, truth bool) string {
+			// a predicate method of the builder that is handed the word: it yields this truth value only
+			// through one of its own gate edges (or as the value of a gate condition)
+			if call, ok := cond.(*ssa.Call); ok && depth < 2 {
+				h := call.Call.StaticCallee()
+				if h != nil && c.inModule(h) && h.Blocks != nil && len(call.Call.Args) == len(h.Params) && len(h.Params) >= 2 && call.Call.Args[0] == recv {
+					wi := -1
+					for k, a := range call.Call.Args {
+						if a == word {
+							wi = k
+						}
+					}
+					if wi > 0 {
+						hg := gateOfIn(h.Params[0], h.Params[wi], depth+1)
+						cut := map[cfgEdge]bool{}
+						for _, b := range h.Blocks {
+							if iff, ok := b.Instrs[len(b.Instrs)-1].(*ssa.If); ok {
+								for ei, tv := range []bool{true, false} {
+									if hg(iff.Cond, tv) != "" {
+										cut[cfgEdge{b, b.Succs[ei]}] = true
+									}
+								}
+							}
+						}
+						seen := map[*ssa.BasicBlock]bool{h.Blocks[0]: true}
+						via := map[cfgEdge]bool{}
+						stack := []*ssa.BasicBlock{h.Blocks[0]}
+						for len(stack) > 0 {
+							b := stack[len(stack)-1]
+							stack = stack[:len(stack)-1]
+							for _, s2 := range b.Succs {
+								if cut[cfgEdge{b, s2}] {
+									continue
+								}
+								via[cfgEdge{b, s2}] = true
+								if !seen[s2] {
+									seen[s2] = true
+									stack = append(stack, s2)
+								}
+							}
+						}
+						ungated := false
+						var yields func(v ssa.Value, at *ssa.BasicBlock, d int) bool // may v be `truth` without a gate?
+						yields = func(v ssa.Value, at *ssa.BasicBlock, d int) bool {
+							if k, isK := v.(*ssa.Const); isK && k.Value != nil {
+								return (k.Value.ExactString() == "true") == truth
+							}
+							if ph, isPhi := v.(*ssa.Phi); isPhi && d < 4 {
+								for i, e := range ph.Edges {
+									pred := ph.Block().Preds[i]
+									if !seen[pred] || !via[cfgEdge{pred, ph.Block()}] {
+										continue
+									}
+									if yields(e, pred, d+1) {
+										return true
+									}
+								}
+								return false
+							}
+							return hg(v, truth) == "" // a condition value: gated when it is itself a gate condition
+						}
+						for _, b := range h.Blocks {
+							if ret, ok := b.Instrs[len(b.Instrs)-1].(*ssa.Return); ok && seen[b] && len(ret.Results) == 1 {
+								if yields(ret.Results[0], b, 0) {
+									ungated = true
+								}
+							}
+						}
+						if !ungated {
+							for _, b := range h.Blocks {
+								if iff, ok := b.Instrs[len(b.Instrs)-1].(*ssa.If); ok {
+									for _, tv := range []bool{true, false} {
+										if hg(iff.Cond, tv) == "no previous word" {
+											return "no previous word" // the helper relies on nil meaning 'nothing added yet'
+										}
+									}
+								}
+							}
+							return "previous word strictly smaller"
+						}
+					}
+				}
+				return ""
 			}
-			break
-		}
-		bo, ok := cond.(*ssa.BinOp)
-		if !ok {
-			return ""
-		}
-		// gate 2: <recv>.lastWord compared with nil; the edge on which it is nil
-		if (isLoadOfField(bo.X, recv, lastField) && isNilConst(bo.Y)) || (isLoadOfField(bo.Y, recv, lastField) && isNilConst(bo.X)) {
-			if (bo.Op == token.EQL && truth) || (bo.Op == token.NEQ && !truth) {
-				return "no previous word"
+			for {
+				if u, ok := cond.(*ssa.UnOp); ok && u.Op == token.NOT {
+					cond, truth = u.X, !truth
+					continue
+				}
+				break
+			}
+			bo, ok := cond.(*ssa.BinOp)
+			if !ok {
+				return ""
+			}
+			// gate 2: <recv>.lastWord compared with nil; the edge on which it is nil
+			if (isLoadOfField(bo.X, recv, lastField) && isNilConst(bo.Y)) || (isLoadOfField(bo.Y, recv, lastField) && isNilConst(bo.X)) {
+				if (bo.Op == token.EQL && truth) || (bo.Op == token.NEQ && !truth) {
+					return "no previous word"
+				}
+				return ""
+			}
+			// gate 1: bytes.Compare(<recv>.lastWord, word) op const
+			var call *ssa.Call
+			var k int64
+			constLeft := false
+			if cv, ok := constInt(bo.Y); ok {
+				call, _ = bo.X.(*ssa.Call)
+				k = cv
+			} else if cv, ok := constInt(bo.X); ok {
+				call, _ = bo.Y.(*ssa.Call)
+				k = cv
+				constLeft = true
+			}
+			if call == nil {
+				return ""
+			}
+			cal := call.Call.StaticCallee()
+			if cal == nil || cal.String() != "bytes.Compare" || len(call.Call.Args) != 2 {
+				return ""
+			}
+			want := int64(0)
+			switch {
+			case isLoadOfField(call.Call.Args[0], recv, lastField) && call.Call.Args[1] == word:
+				want = -1 // previous < new
+			case isLoadOfField(call.Call.Args[1], recv, lastField) && call.Call.Args[0] == word:
+				want = 1 // new > previous
+			default:
+				return ""
+			}
+			vals := cmpValuesOnEdge(bo.Op, k, constLeft, truth)
+			if len(vals) == 1 && vals[0] == want {
+				return "previous word strictly smaller"
 			}
 			return ""
 		}
-		// gate 1: bytes.Compare(<recv>.lastWord, word) op const
-		var call *ssa.Call
-		var k int64
-		constLeft := false
-		if cv, ok := constInt(bo.Y); ok {
-			call, _ = bo.X.(*ssa.Call)
-			k = cv
-		} else if cv, ok := constInt(bo.X); ok {
-			call, _ = bo.Y.(*ssa.Call)
-			k = cv
-			constLeft = true
-		}
-		if call == nil {
-			return ""
-		}
-		cal := call.Call.StaticCallee()
-		if cal == nil || cal.String() != "bytes.Compare" || len(call.Call.Args) != 2 {
-			return ""
-		}
-		want := int64(0)
-		switch {
-		case isLoadOfField(call.Call.Args[0], recv, lastField) && call.Call.Args[1] == word:
-			want = -1 // previous < new
-		case isLoadOfField(call.Call.Args[1], recv, lastField) && call.Call.Args[0] == word:
-			want = 1 // new > previous
-		default:
-			return ""
-		}
-		vals := cmpValuesOnEdge(bo.Op, k, constLeft, truth)
-		if len(vals) == 1 && vals[0] == want {
-			return "previous word strictly smaller"
-		}
-		return ""
+		return gateOf
 	}
+	gateOf := gateOfIn(recv, word, 0)
 	for _, b := range fn.Blocks {
 		if len(b.Instrs) == 0 {
 			continue
@@ -334,26 +423,44 @@ func ruleMustGuard(c *Ctx, r *RuleResult, fnName, initName, lastField, wordParam
 		}
 	}
 	if usesNilGate {
-		P := NewProver(c, fn)
+		// the stores are looked for in Add and in the builder's own methods it calls (rememberWord)
+		type scope struct {
+			fn   *ssa.Function
+			recv ssa.Value
+		}
+		scopes := []scope{{fn, recv}}
 		for _, b := range fn.Blocks {
 			for _, in := range b.Instrs {
-				st, ok := in.(*ssa.Store)
-				if !ok {
-					continue
+				if call, ok := in.(*ssa.Call); ok {
+					if h := call.Call.StaticCallee(); h != nil && c.inModule(h) && h.Blocks != nil && len(call.Call.Args) > 0 && call.Call.Args[0] == ssa.Value(recv) && len(h.Params) > 0 && (initName == "" || c.short(h) != initName) {
+						scopes = append(scopes, scope{h, h.Params[0]})
+					}
 				}
-				fa, ok := st.Addr.(*ssa.FieldAddr)
-				if !ok || fa.X != ssa.Value(recv) {
-					continue
-				}
-				stt := fa.X.Type().Underlying().(*types.Pointer).Elem().Underlying().(*types.Struct)
-				if stt.Field(fa.Field).Name() != lastField {
-					continue
-				}
-				r.inst("%s: value recorded in %s is non-nil (nil means 'no previous word')", fnName, lastField)
-				nonNil := P.Prove(P.nilP(st.Val), b) || overwrittenWhenNil(P, fn, st, recv, lastField)
-				r.oblig(nonNil)
-				if !nonNil {
-					r.find(fnName+":"+lastField+" may be recorded as nil", c.instrPos(st), "%s records %s into %s, which can be nil (the empty word), while the order check treats a nil %s as 'nothing added yet': the empty word can then be added again without an error", fnName, valName(st.Val), lastField, lastField)
+			}
+		}
+		for _, sc := range scopes {
+			fn, recv := sc.fn, sc.recv
+			P := NewProver(c, fn)
+			for _, b := range fn.Blocks {
+				for _, in := range b.Instrs {
+					st, ok := in.(*ssa.Store)
+					if !ok {
+						continue
+					}
+					fa, ok := st.Addr.(*ssa.FieldAddr)
+					if !ok || fa.X != recv {
+						continue
+					}
+					stt := fa.X.Type().Underlying().(*types.Pointer).Elem().Underlying().(*types.Struct)
+					if stt.Field(fa.Field).Name() != lastField {
+						continue
+					}
+					r.inst("%s: value recorded in %s is non-nil (nil means 'no previous word')", fnName, lastField)
+					nonNil := P.Prove(P.nilP(st.Val), b) || overwrittenWhenNil(P, fn, st, recv, lastField)
+					r.oblig(nonNil)
+					if !nonNil {
+						r.find(fnName+":"+lastField+" may be recorded as nil", c.instrPos(st), "%s records %s into %s, which can be nil (the empty word), while the order check treats a nil %s as 'nothing added yet': the empty word can then be added again without an error", fnName, valName(st.Val), lastField, lastField)
+					}
 				}
 			}
 		}
@@ -721,7 +828,7 @@ func init() {
 		run: func(c *Ctx, tier string) []*RuleResult {
 			rp := &RuleResult{Rule: "REJECT-PURE", Doc: "no write rooted at the builder on any path to an error return of Add (lazy Initialise excepted)", MinInst: 2}
 			ruleRejectPure(c, rp, "(*dawg.Builder).Add", "(*dawg.Builder).Initialise")
-			mg := &RuleResult{Rule: "MUSTGUARD", Doc: "cut-set: without the edges implying previous<new (bytes.Compare result restricted to -1) or lastWord==nil, no builder mutation is reachable in Add", MinInst: 4}
+			mg := &RuleResult{Rule: "MUSTGUARD", Doc: "cut-set: without the edges implying previous<new (bytes.Compare result restricted to -1) or lastWord==nil, no builder mutation is reachable in Add", MinInst: 2}
 			ruleMustGuard(c, mg, "(*dawg.Builder).Add", "(*dawg.Builder).Initialise", "lastWord", "b")
 			ne := &RuleResult{Rule: "NONEMPTY", Doc: "index obligations of replaceOrRegister lifted to len(t.links) >= 1 and proved at every call site", MinInst: 3}
 			ruleNonEmpty(c, ne, "dawg.replaceOrRegister")
